@@ -60,8 +60,13 @@ def buf_case(rng, mode, total=None):
     bs, w = pick_matrix(rng, "cbc-enc")
     key, iv = rb(rng, 16), rb(rng, bs)
     c = Case("buf", mode, bs, w, key, iv)
-    total = rng.randrange(0, 4 * bs + 3) if total is None else total
-    for k in random_composition(rng, total, bias=[1, bs - 1, bs, bs + 1, 2 * bs]):
+    if total is None:
+        # mostly short streams; sometimes long ones with calls of many whole blocks issued mid-block
+        total = rng.randrange(0, 4 * bs + 3) if rng.random() < 0.7 else rng.randrange(8 * bs, 22 * bs + 3)
+    bias = [1, bs - 1, bs, bs + 1, 2 * bs]
+    if total > 6 * bs:
+        bias = [1, 3, bs - 1, bs, 8 * bs, 9 * bs, 10 * bs, 12 * bs, 16 * bs]
+    for k in random_composition(rng, total, bias=bias):
         c.ops.append(f"data {hx(rb(rng, k))}")
         if rng.random() < 0.1:
             c.ops.append("restate")
